@@ -77,6 +77,8 @@ type Config struct {
 	Rule         string
 	LeafHook     func(x *Explorer, path []string) // optional: extra exploration at leaves (C13 drain)
 	BlockFailure bool                              // judge block failures (C18)
+	Variants      []string // fixture variants to run (first = default)
+	VariantPhases []Phase  // phases used for the non-default variants (nil = same)
 }
 
 // Counter is a concurrent-safe clause exercise counter used by oracles.
@@ -117,9 +119,10 @@ type unit struct {
 
 type foundViolation struct {
 	Finding
-	Root  string   `json:"root"`
-	Trace []string `json:"trace"`
-	Phase int      `json:"phase"`
+	Root    string   `json:"root"`
+	Trace   []string `json:"trace"`
+	Phase   int      `json:"phase"`
+	Variant string   `json:"variant"`
 }
 
 type unitResult struct {
@@ -218,11 +221,11 @@ func (x *Explorer) record(f Finding, root string, trace []string, phase int) {
 	// replace an earlier longer trace with the same signature
 	for i := range x.res.Violations {
 		if x.res.Violations[i].Sig() == sig {
-			x.res.Violations[i] = foundViolation{f, root, append([]string{}, trace...), phase}
+			x.res.Violations[i] = foundViolation{f, root, append([]string{}, trace...), phase, x.Cfg.Fixture.Variant}
 			return
 		}
 	}
-	x.res.Violations = append(x.res.Violations, foundViolation{f, root, append([]string{}, trace...), phase})
+	x.res.Violations = append(x.res.Violations, foundViolation{f, root, append([]string{}, trace...), phase, x.Cfg.Fixture.Variant})
 }
 
 // step executes op from the current state, evaluates oracles (if judge), and returns whether the
@@ -243,7 +246,7 @@ func (x *Explorer) step(op *Op, parent []Measure, path []string, root string, ph
 	if !br.OK() {
 		x.res.Blocked++
 		if x.Cfg.BlockFailure && judge {
-			x.record(Finding{Clause: "block_processing_failed", Culprit: op.Kind, Disc: blockFailureDisc(br.Err), Detail: br.Err}, root, path, phase)
+			x.record(Finding{Clause: "block_processing_failed", Culprit: "block", Disc: blockFailureDisc(br.Err), Detail: br.Err}, root, path, phase)
 		}
 		return false, nil
 	}
@@ -312,19 +315,22 @@ func splitKey(k string) (string, string) {
 }
 
 func blockFailureDisc(err string) string {
-	// keep the first elys source location of a panic, or the error text's head
+	// the innermost Elys frame of a panic (function name), or the head of the error text
 	for _, l := range strings.Split(err, "\n") {
-		if strings.Contains(l, "/x/") && strings.Contains(l, ".go:") {
-			i := strings.Index(l, "/x/")
-			s := l[i:]
-			if j := strings.Index(s, " "); j > 0 {
+		if i := strings.Index(l, "elys-network/elys/"); i >= 0 && strings.Contains(l, " @ ") {
+			s := l[i+len("elys-network/elys/"):]
+			if j := strings.Index(s, " @ "); j > 0 {
 				s = s[:j]
 			}
-			return s
+			head := strings.SplitN(err, "\n", 2)[0]
+			if len(head) > 60 {
+				head = head[:60]
+			}
+			return head + " in " + s
 		}
 	}
-	if len(err) > 80 {
-		err = err[:80]
+	if len(err) > 100 {
+		err = err[:100]
 	}
 	return err
 }
@@ -759,4 +765,51 @@ func RunMaster(cfg *Config, workerArgs []string) *Summary {
 	}
 	sum.Wall = time.Since(t0).Seconds()
 	return sum
+}
+
+// MergeSummaries adds b into a (used when a property runs several fixture variants).
+func MergeSummaries(a, b *Summary) *Summary {
+	if a == nil {
+		return b
+	}
+	a.States += b.States
+	a.Transitions += b.Transitions
+	a.Blocked += b.Blocked
+	a.FailedTxs += b.FailedTxs
+	a.OkTxs += b.OkTxs
+	a.Validated += b.Validated
+	if b.Outcomes > a.Outcomes {
+		a.Outcomes = b.Outcomes
+	}
+	seen := map[string]bool{}
+	for _, v := range a.Violations {
+		seen[v.Sig()] = true
+	}
+	for _, v := range b.Violations {
+		if !seen[v.Sig()] {
+			a.Violations = append(a.Violations, v)
+		}
+	}
+	if len(a.Samples) < 8 {
+		a.Samples = append(a.Samples, b.Samples...)
+	}
+	for k, v := range b.Clauses {
+		a.Clauses[k] += v
+	}
+	for k, v := range b.OpFail {
+		a.OpFail[k] += v
+	}
+	for k, v := range b.OpOk {
+		a.OpOk[k] += v
+	}
+	a.Exhaustive = a.Exhaustive && b.Exhaustive
+	a.PhasesDone = append(a.PhasesDone, b.PhasesDone...)
+	a.UnitsTotal += b.UnitsTotal
+	a.UnitsDone += b.UnitsDone
+	a.HarnessErrs = append(a.HarnessErrs, b.HarnessErrs...)
+	if b.MaxDepth > a.MaxDepth {
+		a.MaxDepth = b.MaxDepth
+	}
+	a.Wall += b.Wall
+	return a
 }
